@@ -206,6 +206,17 @@ def tlc_model(module, cfg, tag, **kw):
     return r
 
 
+def tlc_behaviours(module, cfg, tag, num, depth, seed, workers=4, timeout=600):
+    """Behaviours (history variables printed as JSON by the spec's Emit invariant) from TLC simulation."""
+    r = run_tlc(module, cfg, tag, workers=workers, simulate=num, depth=depth, seed=seed, timeout=timeout)
+    if r.error or r.violation:
+        raise InfraError("behaviour generation %s/%s failed: %s %s\n%s" % (module, cfg, r.error, r.violation, r.out[-2000:]))
+    behs = [json.loads(json.loads('"' + m + '"')) for m in re.findall(r'<<"BEH", "((?:[^"\\]|\\.)*)">>', r.out)]
+    if not behs:
+        raise InfraError("TLC produced no behaviours (%s/%s)" % (module, cfg))
+    return behs
+
+
 def validate_trace(trace_module, cfg, trace_path, tag, env=None, timeout=900, dfs=False, xmx="8g"):
     """Trace validation: returns (accepted, matched_prefix_len, total, TlcResult)."""
     e = {"TRACE": trace_path}
@@ -227,8 +238,10 @@ def validate_trace(trace_module, cfg, trace_path, tag, env=None, timeout=900, df
 def kf_used(tlc_out):
     """Known-finding deviation keys that the accepting run had to use (printed by the trace spec)."""
     keys = set()
-    for m in re.finditer(r'"KF-USED", "([^"]+)"', tlc_out):
-        keys.add(m.group(1))
+    for line in tlc_out.splitlines():
+        if '"KF-USED"' in line:
+            for m in re.finditer(r'"([^"]+)"', line.split('"KF-USED"', 1)[1]):
+                keys.add(m.group(1))
     return keys
 
 
